@@ -85,6 +85,12 @@ def prop_filter(case, ctx):
 
     # observation list / matrix vs spec
     want_obs = {OL[o] for a in range(ref.m) if A[a] in al for ns in ref.reach for o in ref.O[a][ns]}
+    if spec.get("explicit_observations") is not None:
+        # a declared list is kept as declared (it may name observations that are never emitted)
+        declared = [OL[i] for i in spec["explicit_observations"]]
+        ctx.check(ol == declared, "C07.declared_observation_list_kept", lambda: f"{ol} vs declared {declared}")
+        ctx.event("declared_observation_list")
+        want_obs = set(ol) if want_obs <= set(ol) else want_obs
     ctx.check(set(ol) == want_obs and len(ol) == len(set(ol)), "C07.observation_list",
               lambda: f"{ol} vs {want_obs}")
     for ai, a in enumerate(al):
